@@ -10,7 +10,8 @@ RULE = ("(a) every circuit with <=2 inputs, optional constant, <=2 gates over al
         "named like every auxiliary variable the encoder could build (xor_<p>_<q>, xor_inv_<g>); (c) "
         "seeded random lint-clean circuits (cyclic ones included, flop blackboxes, constants, fan-in 1..5) "
         "with names drawn from a universe of encoder-like names; each x partial assignments over <=3 "
-        "nodes; non-trivial = circuit has a gate and the oracle enumerated its consistent valuations")
+        "nodes; non-trivial = circuit has a gate and the oracle enumerated its consistent valuations"
+        "; plus: every f-string name template of the current library source instantiated with a gate of every type (a node named like something derived from gate g), and solve / edit-in-place / solve histories on one circuit object")
 BOUND = "circuits <= 14 nodes, <= 12 free signals; assignments over <= 3 nodes; 4/16 hash seeds"
 
 
